@@ -202,10 +202,44 @@ def h_split_combine(V, depth, ndata):
         V.check('combine-accepts-bare-array', same(d, V.call(combine_data_and_meta, dd, mm)))
 
 
+def h_meta_vector(V, sym, case, level):
+    """
+    Serialising against a supplied meta: the data vector, read back THROUGH THE META, is the tensor that was serialised --
+    also when the tensor holds a pending permutation or lacks blocks the meta has.  Concrete structures, symbolic real data
+    (as in C01 part B): dense equality is a polynomial identity in the data.
+    """
+    import yastn
+    from yastn.tensor import Tensor
+    from yastn._split_combine_dict import split_data_and_meta, combine_data_and_meta
+    from contracts.c01 import make_leg, symbolic_tensor, dense, arrays_equal, MASKS, FULL
+    l0 = make_leg(sym, 1, FULL)
+    l1 = make_leg(sym, -1, MASKS[case % len(MASKS)][1] if MOD[sym] else FULL)
+    base = symbolic_tensor(V, 'a', sym, [l0, l0, l1])
+    cases = {'plain': base,
+             'lazy-swap-of-identical-legs': V.call(base.transpose, (1, 0, 2)),
+             'lazy-cyclic': V.call(base.transpose, (2, 0, 1))}
+    for name, b in cases.items():
+        ref = V.call(b.consume_transpose)                      # the same tensor, materialised: defines the meta
+        _, meta = V.call(split_data_and_meta, V.call(ref.to_dict, level=level), squeeze=True)
+        out = V.outcome(b.to_dict, level=level, meta=meta)
+        V.check(f'{name}:tensor-compatible-with-its-own-meta-accepted', out.exc is None)
+        if out.exc is not None:
+            continue
+        vec, meta2 = V.call(split_data_and_meta, out.value, squeeze=True)
+        c = V.call(Tensor.from_dict, V.call(combine_data_and_meta, vec, meta))
+        legs = {k: b.get_legs(k) for k in range(3)}
+        arrays_equal(V, f'{name}:vector-read-through-meta-is-the-tensor', dense(V, c, legs), dense(V, b, legs))
+        V.check(f'{name}:vector-has-the-size-the-meta-announces', len(vec) == ref.size)
+
+
 def units(tier):
     U = []
     th = tier == 'thorough'
     syms = ALL_SYMS
+    for sym in syms:
+        for case in range(3 if MOD[sym] else 1):
+            for level in (0, 1, 2):
+                U.append(('h_meta_vector', f"{sym},case{case},level={level}", dict(sym=sym, case=case, level=level)))
     for sym in syms:
         dense = len(MOD[sym]) == 0
         for level in (0, 1, 2):
